@@ -38,7 +38,9 @@ def run(ctx):
     # ---------------------------------------------------------------- R04.1 / R04.2
     fd = mdl.func('path.Arc.derivative')
     fp = mdl.func('path.Arc.point')
-    aopts = arc_opts(mdl)
+    # documented range |delta| <= 360 (so that a piece count derived from delta stays a small number)
+    absd = apply_fn('abs', Rat.sym('A.delta'))
+    aopts = arc_opts(mdl, {'presign': [(absd - 360, '-0'), (absd - 540, '-'), (absd - 720, '-')]})
     for n in range(1, 9):
         def th(it, n=n):
             a = sym_arc(it, 'A', True, False)
